@@ -361,3 +361,18 @@ add("model-const-from-stored-residual", F, ["C16"], "dfols/model.py", "        s
 add("poisedness-gradient-includes-constant-row", F, ["C16"], "dfols/model.py", "            c = soln[0,k]; g = soln[1:, k]", "            c = soln[0,k]; g = soln[0:, k][1:] if False else soln[0:, k]", "C16-6")
 add("s-lagrange-constants-filled-from-solution", S, ["C16"], "dfols/model.py", "            cs = soln[0, :]\n", "            cs = np.zeros((self.npt(),))\n            cs[:] = soln[0, :]\n")
 add("s-lagrange-solution-renamed-and-copied", S, ["C16"], "dfols/model.py", "            c = soln[0]\n            g = soln[1:]\n            return c, g", "            const = float(soln[0])\n            grad = soln[1:].copy()\n            return const, grad")
+
+# ---- C17-8: the running mean of a re-sampled residual
+add("running-mean-weight-one-sample-ahead", F, ["C17"], "dfols/model.py", "        t = float(self.nsamples[k]) / float(self.nsamples[k] + 1)\n", "        t = float(self.nsamples[k] + 1) / float(self.nsamples[k] + 2)\n", "C17-8")
+add("running-mean-weights-swapped", F, ["C17"], "dfols/model.py", "        self.fval_v[k, :] = t * self.fval_v[k, :] + (1 - t) * rvec_extra\n", "        self.fval_v[k, :] = (1 - t) * self.fval_v[k, :] + t * rvec_extra\n", "C17-8")
+add("running-mean-count-incremented-first", F, ["C17"], "dfols/model.py",
+    '        t = float(self.nsamples[k]) / float(self.nsamples[k] + 1)\n        self.fval_v[k, :] = t * self.fval_v[k, :] + (1 - t) * rvec_extra\n        # NOTE: how to sample when we have h? still at xpt(k), then add h(xpt(k)). Modify test if incorrect!\n        self.objval[k] = sumsq(self.fval_v[k, :])\n        if self.h is not None:\n            self.objval[k] += self.h(remove_scaling(self.xbase + self.points[k, :], self.scaling_changes), *self.argsh)\n        self.nsamples[k] += 1\n',
+    '        self.nsamples[k] += 1\n        t = float(self.nsamples[k]) / float(self.nsamples[k] + 1)\n        self.fval_v[k, :] = t * self.fval_v[k, :] + (1 - t) * rvec_extra\n        # NOTE: how to sample when we have h? still at xpt(k), then add h(xpt(k)). Modify test if incorrect!\n        self.objval[k] = sumsq(self.fval_v[k, :])\n        if self.h is not None:\n            self.objval[k] += self.h(remove_scaling(self.xbase + self.points[k, :], self.scaling_changes), *self.argsh)\n', "C17-8")
+add("s-running-mean-count-incremented-first-and-weights-adjusted", S, ["C17", "C03"], "dfols/model.py",
+    '        t = float(self.nsamples[k]) / float(self.nsamples[k] + 1)\n        self.fval_v[k, :] = t * self.fval_v[k, :] + (1 - t) * rvec_extra\n        # NOTE: how to sample when we have h? still at xpt(k), then add h(xpt(k)). Modify test if incorrect!\n        self.objval[k] = sumsq(self.fval_v[k, :])\n        if self.h is not None:\n            self.objval[k] += self.h(remove_scaling(self.xbase + self.points[k, :], self.scaling_changes), *self.argsh)\n        self.nsamples[k] += 1\n',
+    '        self.nsamples[k] += 1\n        t = float(self.nsamples[k] - 1) / float(self.nsamples[k])\n        self.fval_v[k, :] = t * self.fval_v[k, :] + (1 - t) * rvec_extra\n        # NOTE: how to sample when we have h? still at xpt(k), then add h(xpt(k)). Modify test if incorrect!\n        self.objval[k] = sumsq(self.fval_v[k, :])\n        if self.h is not None:\n            self.objval[k] += self.h(remove_scaling(self.xbase + self.points[k, :], self.scaling_changes), *self.argsh)\n')
+add("running-mean-plain-half", F, ["C17"], "dfols/model.py", "        self.fval_v[k, :] = t * self.fval_v[k, :] + (1 - t) * rvec_extra\n", "        self.fval_v[k, :] = 0.5 * (self.fval_v[k, :] + rvec_extra)\n", "C17-8")
+add("s-running-mean-incremental-form", S, ["C17", "C03"], "dfols/model.py", "        self.fval_v[k, :] = t * self.fval_v[k, :] + (1 - t) * rvec_extra\n",
+    "        self.fval_v[k, :] = self.fval_v[k, :] + (rvec_extra - self.fval_v[k, :]) / float(self.nsamples[k] + 1)\n")
+add("s-running-mean-sum-form", S, ["C17", "C03"], "dfols/model.py", "        self.fval_v[k, :] = t * self.fval_v[k, :] + (1 - t) * rvec_extra\n",
+    "        nk = self.nsamples[k]\n        self.fval_v[k, :] = (nk * self.fval_v[k, :] + rvec_extra) / (nk + 1.0)\n")
